@@ -40,14 +40,23 @@ def generate_lemma(reg, c):
     from .state import State
     from .vals import fresh
     eng = Exec(reg, c, None, None, None)
-    st = State()
-    for name, t in c.params.items():
-        st.vars[name] = fresh(t, name)
-    st.old = dict(st.vars)
-    for e, t in eng.spec_conj(c.requires, st):
-        st.assume(t)
-    eng.cover(st, "hypotheses", 0)
-    for e, t in eng.spec_conj(c.ensures, st):
-        eng.oblige(st, t, "lemma", f"lemma[{e[:60]}]", 0)
-    info = dict(key=c.key, module=None, qualname=c.key, hash="lemma", paths=1, normal_paths=1, inlined=[], used_schemas=[], lineno=0)
+    all_obls = []
+    for valuation in eng.case_valuations():
+        eng.obls = []
+        st = State()
+        for name, t in c.params.items():
+            st.vars[name] = fresh(t, name)
+        label = eng.apply_case(st, valuation)
+        eng.name = c.key + (f"/case[{label}]" if label else "")
+        st.old = dict(st.vars)
+        for e, t in eng.spec_conj(c.requires, st):
+            st.assume(t)
+        eng.apply_use(c.use_at_start, st)
+        eng.cover(st, "hypotheses", 0)
+        for e, t in eng.spec_conj(c.ensures, st):
+            eng.oblige(st, t, "lemma", f"lemma[{e[:60]}]", 0)
+        all_obls += eng.obls
+    eng.obls = all_obls
+    info = dict(key=c.key, module=None, qualname=c.key, hash="lemma", paths=1, normal_paths=1, inlined=[],
+                used_schemas=sorted(set(eng.assumed)) + sorted(set(getattr(eng, "used_lemmas", []))), lineno=0)
     return eng.obls, info
